@@ -705,6 +705,41 @@ static string do_e1p(const vector<string> &a) {
   return "t=" + trace + ";delivered=" + vh::str(delivered) + ";spec=" + vh::str(delivered == ps.size() ? 1 : 0);
 }
 
+// ---------------------------------------------------------------- SandNet compressed DMX (receive only)
+static string do_sac(const vector<string> &a) {
+  // sac <group> <universe> <hg> <hu> <old> <cut (bytes of the encoding kept, -1 = all)> <frame>
+  using ola::plugin::sandnet::SandNetNode;
+  vector<uint8_t> f = vh::unhex(a[7]);
+  DmxBuffer src, rx;
+  tx_fill(&src, f, NULL);
+  buf_init(&rx, a[5]);
+  ola::dmx::RunLengthEncoder enc;
+  vector<uint8_t> out(1026);
+  unsigned size = out.size();
+  bool complete = enc.Encode(src, out.data(), &size);
+  long cut = vh::snum(a[6]);
+  if (cut >= 0 && static_cast<unsigned>(cut) < size) size = cut;
+  vector<uint8_t> pkt;
+  pkt.push_back(0x0a); pkt.push_back(0x00);
+  pkt.push_back(vh::num(a[1])); pkt.push_back(vh::num(a[2])); pkt.push_back(1);
+  for (int k = 0; k < 4; k++) pkt.push_back(0);
+  pkt.push_back(2); pkt.push_back(size >> 8); pkt.push_back(size & 255);
+  pkt.insert(pkt.end(), out.begin(), out.begin() + size);
+  SandNetNode node("");
+  node.m_interface = iface();
+  node.m_data_socket.Init();
+  node.m_control_socket.Init();
+  node.m_running = true;
+  node.SetHandler(vh::num(a[3]), vh::num(a[4]), &rx, ola::NewCallback(&on_data));
+  int before = g_calls;
+  g_rx = pkt; g_rx_valid = true; set_source();
+  node.SocketReady(&node.m_data_socket);
+  bool handled = g_calls == before + 1;
+  string exp = overlay(a[5], 0, f);
+  return "complete=" + vh::str(complete ? 1 : 0) + ";pkt=" + vh::hex(pkt) + ";handled=" + vh::str(handled ? 1 : 0) +
+         ";buf=" + buf_s(rx) + ";spec=" + vh::str((handled && buf_s(rx) == exp) ? 1 : 0);
+}
+
 static string handle(const string &p) {
   vector<string> a = vh::split(p);
   const string &op = a[0];
@@ -717,6 +752,7 @@ static string handle(const string &p) {
   if (op == "an3" && a.size() == 8) return do_an3(a);
   if (op == "anu" && a.size() == 9) return do_anu(a);
   if (op == "e1p" && a.size() == 5) return do_e1p(a);
+  if (op == "sac" && a.size() == 8) return do_sac(a);
   if (op == "dec" && a.size() == 4) return do_dec(a);
   if (op == "sn" && a.size() == 7) return do_sn(a);
   if (op == "sa" && a.size() == 8) return do_sa(a);
